@@ -39,3 +39,65 @@ where
 {
     IntOrString::deserialize(deserializer).map(String::from)
 }
+
+/// Types an ID-typed field can have: `String` under any nesting of `Option` and `Vec`.
+///
+/// This is used by the codegen for list-typed ID fields (`[ID!]!`, `[ID]`, `[[ID!]]`...), so that
+/// every ID inside the lists can be deserialized from either a String or an Integer.
+pub trait NestedId: Sized {
+    /// Deserialize `Self`, reading every ID in it from either a String or an Integer representation.
+    fn deserialize_nested_id<'de, D>(deserializer: D) -> Result<Self, D::Error>
+    where
+        D: Deserializer<'de>;
+}
+
+impl NestedId for String {
+    fn deserialize_nested_id<'de, D>(deserializer: D) -> Result<Self, D::Error>
+    where
+        D: Deserializer<'de>,
+    {
+        deserialize_id(deserializer)
+    }
+}
+
+struct NestedIdWrapper<T>(T);
+
+impl<'de, T: NestedId> Deserialize<'de> for NestedIdWrapper<T> {
+    fn deserialize<D>(deserializer: D) -> Result<Self, D::Error>
+    where
+        D: Deserializer<'de>,
+    {
+        T::deserialize_nested_id(deserializer).map(NestedIdWrapper)
+    }
+}
+
+impl<T: NestedId> NestedId for Option<T> {
+    fn deserialize_nested_id<'de, D>(deserializer: D) -> Result<Self, D::Error>
+    where
+        D: Deserializer<'de>,
+    {
+        Option::<NestedIdWrapper<T>>::deserialize(deserializer).map(|opt| opt.map(|id| id.0))
+    }
+}
+
+impl<T: NestedId> NestedId for Vec<T> {
+    fn deserialize_nested_id<'de, D>(deserializer: D) -> Result<Self, D::Error>
+    where
+        D: Deserializer<'de>,
+    {
+        Vec::<NestedIdWrapper<T>>::deserialize(deserializer)
+            .map(|ids| ids.into_iter().map(|id| id.0).collect())
+    }
+}
+
+/// Deserialize any `Option` / `Vec` nesting of the ID type, reading every ID from either a String
+/// or an Integer representation.
+///
+/// This is used by the codegen for list-typed ID fields.
+pub fn deserialize_nested_id<'de, D, T>(deserializer: D) -> Result<T, D::Error>
+where
+    D: Deserializer<'de>,
+    T: NestedId,
+{
+    T::deserialize_nested_id(deserializer)
+}
